@@ -960,6 +960,17 @@ def r6_arithmetic(check, prog, canon):
                       fail_detail='%s flattens an array-valued constant: (np.array([10., '
                       '20.]) * p).sample(3) has shape (3,) and multiplies every draw by '
                       '10' % show(flat[0])[:60] if flat else '')
+    opaque = [c for o in rets for c in subterms(o.value)
+              if c[0] == 'call' and isinstance(c[1], tuple) and c[1][0] == 'closure']
+    if not ok and opaque:
+        # a local function the evaluator could not unfold (it calls itself: a
+        # recursive descent into the operands): the element's origin is not
+        # visible -- undecided, not a violation
+        check.error('R6-transformed-sample: TransformedPrior.sample hands its operands '
+                    'to a recursive local function (%s); the origin of the values '
+                    'passed to the transformation is beyond the inlining bound -- '
+                    'undecided' % loc)
+        return
     check.require(ok, 'R6-transformed-sample', 'TransformedPrior.sample',
                   'samples = transformation applied to the base samples, set by set',
                   loc, fail_detail='returns %s' % [show(o.value)[:120] for o in rets])
